@@ -2144,6 +2144,12 @@ class EdgeQLSourceGenerator(codegen.SourceGenerator):
                 and not isinstance(node.target, qlast.TypeExpr)
                 # SDL has no `OVERLOADED ... := <expr>` form.
                 and not (self.sdlmode and node.declared_overloaded)
+                # In the body of a link `p := <expr>` sets a field.
+                and not (
+                    kind is None
+                    and isinstance(
+                        getattr(node, '_parent', None), qlast.LinkCommand)
+                )
             )
         )
 
